@@ -67,13 +67,13 @@ def opC05Tree (args : List W) : String :=
   | _ => "bad-arity"
 
 /-- `c05.shortcut <tree> <ctree> x<shortcut>`: model = justified by the tree `findRegexpShortcut` consults,
-    spec = justified by the compiled expression (hypothesis of theorem `c05_justified`). -/
+    spec = justified by the merged runs of the compiled expression (hypothesis of theorem `c05_justified_runs`). -/
 def opC05Shortcut (args : List W) : String :=
   match args with
   | [t, c, sc] =>
     if t.isNone || c.isNone then "ood -" else
     match decTree 1000 t, decTree 1000 c, sc.bytes? with
-    | some t, some c, some sc => outBool (shortcutJustified sc t) ++ " " ++ outBool (shortcutJustified sc c)
+    | some t, some c, some sc => outBool (shortcutJustified sc t) ++ " " ++ outBool (shortcutJustifiedRuns sc c)
     | _, _, _ => "bad-decode"
   | _ => "bad-arity"
 
